@@ -33,6 +33,9 @@ def small_program(rng, with_test=False):
         if rng.random() < 0.25 and ".define segment" not in text:
             # a segment block whose name is given by an identifier that means something else at the root
             text += '.const segname = "default"\nshadow: {\n    .const segname = "default"\n    .segment segname {\n        nop\n    }\n}\n.byte segname == "default"\n'
+        if rng.random() < 0.2 and ".define segment" not in text:
+            # a segment block inside a segment block (outline requests walk into both)
+            text += '.segment "default" {\n    nop\n    .segment "default" {\n        nested_zz: nop\n    }\n}\n'
         if with_test:
             text += '.test "t" {\n    lda #1\n    .assert cpu.a == 1\n    brk\n}\n'
         return text
@@ -118,9 +121,17 @@ def battery(pr, open_bufs, disk, rng_seed):
             for m in POS_METHODS:
                 if m in ("textDocument/rename",):
                     continue   # a rename request changes the server's state (that is one of the things under test): not part of the battery
-                out["%s %s:%d:%d" % (m, name, ln, ch)] = pr.srv.request(m, params_for(m, uri, ln, ch))
+                out["%s %s:%d:%d" % (m, name, ln, ch)] = r_ = pr.srv.request(m, params_for(m, uri, ln, ch))
+                if isinstance(r_, dict) and (r_.get("blocked") or "dead" in r_):
+                    out["__unresponsive__"] = "%s %s:%d:%d" % (m, name, ln, ch)
+                    out["__again__"] = {}
+                    return out           # a server that is blocked or gone answers nothing any more: every further question costs a watchdog
         for m in DOC_METHODS:
-            out["%s %s" % (m, name)] = pr.srv.request(m, doc_params(m, uri))
+            out["%s %s" % (m, name)] = r_ = pr.srv.request(m, doc_params(m, uri))
+            if isinstance(r_, dict) and (r_.get("blocked") or "dead" in r_):
+                out["__unresponsive__"] = "%s %s" % (m, name)
+                out["__again__"] = {}
+                return out
     out["workspace/symbol"] = pr.srv.request("workspace/symbol", {"query": ""})
     # the same questions once more, now that every kind of request has been served: reading must not change the answers
     again = {}
@@ -456,6 +467,19 @@ def run_history(acc, rng, hist_seed):
         history_log = list(pr.srv.log)
         edited = battery(pr, open_bufs, disk, hist_seed)
         edited_diags = {pr.name_of_uri(u): normalise(d) for u, d in pr.srv.diagnostics.items()}
+        un = edited.pop("__unresponsive__", None)
+        if un:
+            r_ = edited.get(un) or {}
+            w = {"disk": disk, "open_buffers": dict(open_bufs), "events": events[-12:], "query": un, "response": r_}
+            if r_.get("blocked"):
+                acc.violation("no-response|%s|battery" % un.split(" ")[0].split("/")[-1],
+                              "no response to %s: every thread of the server is asleep and it consumes no CPU" % un, w)
+            else:
+                err = pr.srv.stderr[-300:].decode("utf8", "replace")
+                mm3 = re.search(r"panicked at ([^\n:]+):\d+", err)
+                acc.violation("server-died|battery|%s|%s" % (un.split(" ")[0].split("/")[-1], mm3.group(1) if mm3 else "exit %s" % r_.get("dead")),
+                              "%s killed the server: %s" % (un, err[-200:].replace("\n", " | ")), w)
+            return
         # requests only read: the same question asked twice in a row of one server gets the same answer
         again = edited.pop("__again__", {})
         for key in sorted(again):
@@ -483,6 +507,8 @@ def run_history(acc, rng, hist_seed):
             (fa, ba, da), (fb, bb, db) = fresh
             ba.pop("__again__", None)
             bb.pop("__again__", None)
+            ba.pop("__unresponsive__", None)
+            bb.pop("__unresponsive__", None)
             for key in sorted(edited):
                 a, b, e = normalise(ba.get(key)), normalise(bb.get(key)), normalise(edited[key])
                 acc.count("battery_answers_compared")
